@@ -16,7 +16,7 @@
        compression/filter stage at image level and the container are decided on every run by the
        correspondence check and the specification oracle (see evidence). *)
 From OxiVerif Require Import Base.Common Spec.Filter Spec.Adam7 Spec.Sem Model.Types Model.Options Model.BitDepth
-  Model.ScanLines Model.Filters Model.Color Model.Palette Model.Reductions
+  Model.ScanLines Model.Filters Model.Color Model.Palette Model.Reductions Model.Evaluate Model.Optimize
   Proofs.Bridge Proofs.PixelProofs Proofs.FilterProofs Proofs.ImageLift Proofs.LiftReductions Proofs.LiftColor
   Proofs.LiftPalette Proofs.LiftLines Proofs.LiftBits Proofs.PipelineLossless.
 
@@ -146,6 +146,14 @@ Theorem C01_reductions_lossless_partial : forall (L : leaves) e o img pic baseli
   means pic baseline /\ Forall (cand_means pic) evs.
 Proof. exact perform_reductions_lossless_partial. Qed.
 Print Assumptions C01_reductions_lossless_partial.
+
+(* ... and so does the image of whatever candidate optimize_raw finally chooses: for every evaluator schedule, every compressor
+   answer, every clock and every size limit *)
+Theorem C01_emitted_lossless_partial : forall (L : leaves) e o img max_size c pic,
+  optimize_alpha o = false -> scale_16 o = false -> means pic img ->
+  optimize_raw e o img max_size = Ok (Some c) -> means pic (c_image c).
+Proof. exact optimize_raw_lossless_partial. Qed.
+Print Assumptions C01_emitted_lossless_partial.
 
 (* non-vacuity: the witness of finding F1 (4x2 gray16, pixels 3434 1212 0000 ffff, key 0x1234):
    after the fix the key is dropped because it can match no pixel *)
